@@ -2,10 +2,11 @@ import RpmVerif.Model.Basic
 /-!
 # L9: a tree-with-symlinks file system and the call sequence of `Package::extract`
 
-Model of `src/rpm/package.rs` `Package::extract` (lines 113-163) together with the POSIX semantics of
-the handful of system calls it makes (`mkdir`, `open(O_CREAT|O_TRUNC)`, `chmod`, `lstat`/`stat`,
-`unlink`, `symlink`) and of the `std` wrappers around them (`fs::create_dir_all`, `Path::join`,
-`Path::strip_prefix`).
+Model of `src/rpm/package.rs` `Package::extract` with its helpers `extraction_path`, `is_symlink`,
+`refuse_symlinks` (the code after /repo commit 44c69bc "fix: extract() stays inside the destination and
+reports unsupported file types"), together with the POSIX semantics of the handful of system calls it
+makes (`mkdir`, `open(O_CREAT|O_TRUNC)`, `chmod`, `lstat`/`stat`, `unlink`, `symlink`) and of the
+`std` wrappers around them (`fs::create_dir_all`, `Path::join`, `Path::strip_prefix`, `components`).
 
 * A file system is a finite map from absolute, physical paths (lists of components below the root of
   the jail) to nodes, plus a log of every path an operation created, modified or removed.
@@ -213,12 +214,32 @@ text but are skipped by the kernel, so the result is given as the list of `Norma
 def relComps (s : Bytes) : Option (List Name) :=
   if s.head? = some slash then some ((splitSlash s).filter (fun c => c ≠ [] ∧ c ≠ dot)) else none
 
-/-- `dest.join(Path::new(s).strip_prefix("/").unwrap_or(dest))` for an absolute `dest`
-(`join` with an absolute argument returns the argument) -/
-def destJoin (dest : List Name) (s : Bytes) : List Name :=
+/-- `extraction_path(dest, Path::new(s))` for an absolute `dest`: a relative `s` gives `dest` itself
+(`strip_prefix("/")` fails), a `..` component is refused (`none` = `Err(InvalidDestinationPath)`),
+otherwise `dest.join(rel)` -/
+def extractionPath (dest : List Name) (s : Bytes) : Option (List Name) :=
   match relComps s with
-  | some cs => dest ++ cs
-  | none => dest
+  | some cs => if cs.contains dotdot then none else some (dest ++ cs)
+  | none => some dest
+
+/-- the components of `s` below the destination (`[]` for a relative `s`) -/
+def relOf (s : Bytes) : List Name := (relComps s).getD []
+
+/-- `is_symlink(path)`: `lstat` succeeds and finds a symbolic link -/
+def isSymlinkAt (fs : Fs) (cs : List Name) : Bool :=
+  match resolve fs false cs with
+  | .ok q => match fs.get q with | some (.symlink _) => true | _ => false
+  | .error _ => false
+
+/-- the loop of `refuse_symlinks`: `cur` is `current` before the push, the list holds the remaining
+components; `true` = refused. (`last || i + 1 < count` = `last ||` this is not the final component.) -/
+def refuseFrom (fs : Fs) (last : Bool) : List Name → List Name → Bool
+  | _, [] => false
+  | cur, c :: rest =>
+    ((last || !rest.isEmpty) && isSymlinkAt fs (cur ++ [c])) || refuseFrom fs last (cur ++ [c]) rest
+
+/-- `refuse_symlinks(dest, dest.join(rel), last)`; `true` = `Err(InvalidDestinationPath)` -/
+def refuseSymlinks (fs : Fs) (dest rel : List Name) (last : Bool) : Bool := refuseFrom fs last dest rel
 
 /-- `Path::new(dir).join(base)` as text -/
 def pathJoin (dir base : Bytes) : Bytes :=
@@ -271,19 +292,26 @@ def done (fs : Fs) : Res := ⟨.ok (), fs⟩
 
 /-- body of the `for file in self.files()?` loop -/
 def extractItem (dest : List Name) (fs : Fs) (it : Item) : Res :=
-  match it.kind with
-  | .dir =>
-    andThen fs (createDirAll fs (destJoin dest it.path)) fun fs1 =>
-    andThen fs1 (setPerm fs1 (destJoin dest it.path) it.perm) done
-  | .regular =>
-    andThen fs (fileCreate fs (destJoin dest it.path) it.content) fun fs1 =>
-    andThen fs1 (setPerm fs1 (destJoin dest it.path) it.perm) done
-  | .symlink =>
-    if lexists fs (destJoin dest it.path) then
-      andThen fs (unlink fs (destJoin dest it.path)) fun fs1 =>
-      andThen fs1 (symlink fs1 (destJoin dest it.path) it.linkto) done
-    else andThen fs (symlink fs (destJoin dest it.path) it.linkto) done
-  | .other => ⟨.panic "unreachable", fs⟩
+  match extractionPath dest it.path with
+  | none => ⟨.err "dotdot", fs⟩
+  | some p =>
+    match it.kind with
+    | .dir =>
+      if refuseSymlinks fs dest (relOf it.path) true then ⟨.err "symlink", fs⟩ else
+      andThen fs (createDirAll fs p) fun fs1 =>
+      andThen fs1 (setPerm fs1 p it.perm) done
+    | .regular =>
+      if refuseSymlinks fs dest (relOf it.path) false then ⟨.err "symlink", fs⟩ else
+      andThen fs (if isSymlinkAt fs p then unlink fs p else .ok fs) fun fs0 =>
+      andThen fs0 (fileCreate fs0 p it.content) fun fs1 =>
+      andThen fs1 (setPerm fs1 p it.perm) done
+    | .symlink =>
+      if refuseSymlinks fs dest (relOf it.path) false then ⟨.err "symlink", fs⟩ else
+      if lexists fs p then
+        andThen fs (unlink fs p) fun fs1 =>
+        andThen fs1 (symlink fs1 p it.linkto) done
+      else andThen fs (symlink fs p it.linkto) done
+    | .other => ⟨.err "filemode", fs⟩
 
 def extractItems (dest : List Name) : Fs → List Item → Res
   | fs, [] => done fs
@@ -295,7 +323,10 @@ def extractItems (dest : List Name) : Fs → List Item → Res
 /-- the loop over `RPMTAG_DIRNAMES` -/
 def extractDirs (dest : List Name) : Fs → List Bytes → Res
   | fs, [] => done fs
-  | fs, d :: r => andThen fs (createDirAll fs (destJoin dest d)) fun fs' => extractDirs dest fs' r
+  | fs, d :: r =>
+    match extractionPath dest d with
+    | none => ⟨.err "dotdot", fs⟩
+    | some p => andThen fs (createDirAll fs p) fun fs' => extractDirs dest fs' r
 
 /-- `Package::extract(dest)` -/
 def extract (inp : Input) (dest : List Name) (fs : Fs) : Res :=
